@@ -619,4 +619,188 @@ theorem opsOnly_withLog {σ : Type} (get : σ → MS) (pf : σ → Addr → Nat 
   intro sl p i
   exact h sl.1 p i
 
+/-! ## the batch path of `Add` never grows through `append` -/
+
+theorem hdr_step_realloc (m : Mem) (i : Nat) (content : List Addr) (len cap : Nat)
+    (hc : len ≤ cap ∧ cap ≤ content.length) (j : Nat) :
+    hdr (step m (.realloc i content len cap)) j =
+      if j = i ∧ i < m.bins.length then ⟨m.heap.length, len, cap⟩ else hdr m j := by
+  simp only [step]; rw [if_pos hc, hdr_set m]
+
+theorem hdr_step_write (m : Mem) (i : Nat) (a : Addr) (hc : (hdr m i).len < (hdr m i).cap) (j : Nat) :
+    hdr (step m (.write i a)) j =
+      if j = i ∧ i < m.bins.length then { hdr m i with len := (hdr m i).len + 1 } else hdr m j := by
+  simp only [step]; rw [if_pos hc, hdr_set m]
+
+theorem binChange_congr (ms ms' : MS) (h1 : ms'.base = ms.base) (h2 : ms'.maxBins = ms.maxBins)
+    (l : List (Addr × Bool)) (i : Nat) : binChange ms' l i = binChange ms l i := by
+  unfold binChange poM; rw [h1, h2]
+
+theorem binChange_cons (ms : MS) (a : Addr) (e : Bool) (rest : List (Addr × Bool)) (i : Nat) :
+    binChange ms ((a, e) :: rest) i = (if (!e && poM ms a == i) = true then 1 else 0) + binChange ms rest i := by
+  unfold binChange
+  rw [List.filter_cons]
+  split
+  · simp_all; omega
+  · simp_all
+
+/-- every bin has room for all the appends the rest of the batch can still make into it -/
+def Room (l : List (Addr × Bool)) (ms : MS) : Prop :=
+  ∀ i, i < ms.mem.bins.length → (hdr ms.mem i).len + binChange ms l i ≤ (hdr ms.mem i).cap
+
+theorem grow_room (l : List (Addr × Bool)) : ∀ (is : List Nat) (ms : MS), WF ms.mem →
+    (∀ k, k ∈ is → k < ms.mem.bins.length →
+      (hdr (runM ms (growPrims l is ms)).mem k).len + binChange ms l k ≤ (hdr (runM ms (growPrims l is ms)).mem k).cap) ∧
+    (∀ j, j ∉ is → hdr (runM ms (growPrims l is ms)).mem j = hdr ms.mem j) := by
+  intro is
+  induction is with
+  | nil =>
+    intro ms _
+    exact ⟨fun k hk => by simp at hk, fun j _ => rfl⟩
+  | cons i rest ih =>
+    intro ms hw
+    rw [growPrims]
+    simp only
+    by_cases hc : binChange ms l i > 0 ∧ (hdr ms.mem i).cap < (hdr ms.mem i).len + binChange ms l i
+    · rw [if_pos hc]
+      have hl := read_length ms.mem hw i
+      have hg : (hdr ms.mem i).len ≤ (hdr ms.mem i).len + binChange ms l i ∧
+          (hdr ms.mem i).len + binChange ms l i ≤
+            (read ms.mem (hdr ms.mem i) ++ List.replicate (binChange ms l i) zero).length := by
+        simp only [List.length_append, List.length_replicate, hl]; omega
+      have key : ∀ p, p = Prim.realloc i (read ms.mem (hdr ms.mem i) ++ List.replicate (binChange ms l i) zero)
+          (hdr ms.mem i).len ((hdr ms.mem i).len + binChange ms l i) →
+          (∀ k, k ∈ i :: rest → k < ms.mem.bins.length →
+            (hdr (runM ms (p :: growPrims l rest (stepM ms p))).mem k).len + binChange ms l k
+              ≤ (hdr (runM ms (p :: growPrims l rest (stepM ms p))).mem k).cap) ∧
+          (∀ j, j ∉ i :: rest → hdr (runM ms (p :: growPrims l rest (stepM ms p))).mem j = hdr ms.mem j) := by
+        intro p hp
+        obtain ⟨A1, B1⟩ := ih (stepM ms p) (wf_step ms.mem hw p)
+        have hh : ∀ j, hdr (stepM ms p).mem j =
+            if j = i ∧ i < ms.mem.bins.length then ⟨ms.mem.heap.length, (hdr ms.mem i).len, (hdr ms.mem i).len + binChange ms l i⟩
+            else hdr ms.mem j := by
+          intro j; rw [hp]; exact hdr_step_realloc ms.mem i _ _ _ hg j
+        constructor
+        · intro k hk hkl
+          show (hdr (runM (stepM ms p) (growPrims l rest (stepM ms p))).mem k).len + _ ≤
+            (hdr (runM (stepM ms p) (growPrims l rest (stepM ms p))).mem k).cap
+          by_cases hkr : k ∈ rest
+          · have := A1 k hkr (by simpa [bins_length_step] using hkl)
+            rwa [binChange_congr ms (stepM ms p) rfl rfl] at this
+          · have hki : k = i := by
+              rcases List.mem_cons.1 hk with h | h
+              · exact h
+              · exact absurd h hkr
+            subst hki
+            rw [B1 k hkr, hh k, if_pos ⟨rfl, hkl⟩]
+            exact Nat.le_refl _
+        · intro j hj
+          show hdr (runM (stepM ms p) (growPrims l rest (stepM ms p))).mem j = _
+          have hji : j ≠ i := fun h => hj (h ▸ List.mem_cons_self)
+          have hjr : j ∉ rest := fun h => hj (List.mem_cons_of_mem _ h)
+          rw [B1 j hjr, hh j, if_neg (fun h => hji h.1)]
+      exact key _ rfl
+    · rw [if_neg hc]
+      obtain ⟨A1, B1⟩ := ih ms hw
+      constructor
+      · intro k hk hkl
+        by_cases hkr : k ∈ rest
+        · exact A1 k hkr hkl
+        · have hki : k = i := by
+            rcases List.mem_cons.1 hk with h | h
+            · exact h
+            · exact absurd h hkr
+          subst hki
+          rw [B1 k hkr]
+          have := hw.lencap k hkl
+          omega
+      · intro j hj
+        exact B1 j (fun h => hj (List.mem_cons_of_mem _ h))
+
+def IsWrite : Prim → Prop
+  | .write _ _ => True
+  | .realloc _ _ _ _ => False
+
+/-- third loop of the batch path, when every bin has room: all appends are in place and the
+    runtime's growth policy is never consulted -/
+theorem addLoop_room (orc orc' : Nat → Nat) : ∀ (l : List (Addr × Bool)) (ms : MS), WF ms.mem →
+    InRange ms → Room l ms →
+    (∀ p, p ∈ addLoopPrims orc l ms → IsWrite p) ∧ addLoopPrims orc l ms = addLoopPrims orc' l ms := by
+  intro l
+  induction l with
+  | nil => intro ms _ _ _; exact ⟨fun p hp => by simp [addLoopPrims] at hp, rfl⟩
+  | cons x rest ih =>
+    intro ms hw hr hroom
+    obtain ⟨a, e⟩ := x
+    have hmono : Room rest ms := by
+      intro i hi
+      have := hroom i hi
+      rw [binChange_cons] at this
+      omega
+    cases e with
+    | true =>
+      rw [addLoopPrims, addLoopPrims]
+      simp only [if_true]
+      exact ih ms hw hr hmono
+    | false =>
+      rw [addLoopPrims, addLoopPrims]
+      simp only [Bool.false_eq_true, if_false]
+      by_cases he : (indexM ms a (poM ms a)).isSome = true
+      · rw [if_pos he, if_pos he]
+        exact ih ms hw hr hmono
+      · rw [if_neg he, if_neg he]
+        have hpo := poM_lt ms hr a
+        have hrm := hroom (poM ms a) hpo
+        rw [binChange_cons] at hrm
+        simp only [Bool.not_false, Bool.true_and, beq_self_eq_true, if_true] at hrm
+        have hc : (hdr ms.mem (poM ms a)).len < (hdr ms.mem (poM ms a)).cap := by omega
+        have hw1 : ∀ o, appendPrim ms.mem o (poM ms a) a = .write (poM ms a) a := by
+          intro o; unfold appendPrim; simp only; rw [if_pos hc]
+        rw [hw1 orc, hw1 orc']
+        have hroom' : Room rest (stepM ms (.write (poM ms a) a)) := by
+          intro i hi
+          have hi' : i < ms.mem.bins.length := by simpa [bins_length_step] using hi
+          rw [binChange_congr ms (stepM ms _) rfl rfl]
+          show (hdr (step ms.mem _) i).len + _ ≤ (hdr (step ms.mem _) i).cap
+          rw [hdr_step_write ms.mem _ a hc i]
+          by_cases hip : i = poM ms a
+          · rw [if_pos ⟨hip, hpo⟩]; simp only
+            subst hip; omega
+          · rw [if_neg (fun h => hip h.1)]
+            have := hroom i hi'
+            rw [binChange_cons] at this
+            omega
+        obtain ⟨h1, h2⟩ := ih (stepM ms (.write (poM ms a) a)) (wf_step ms.mem hw (.write (poM ms a) a))
+          (inRange_stepM ms _ hr) hroom'
+        refine ⟨?_, by rw [h2]⟩
+        intro p hp
+        rcases List.mem_cons.1 hp with h | h
+        · rw [h]; trivial
+        · exact h1 p h
+
+/-- the batch path of `Add` (`len(addrs) ≠ 1`): after the pre-grow loop every append of the third
+    loop is an in-place `.write`; the primitives do not depend on the growth oracle. -/
+theorem addBatch_no_growth (ms : MS) (hw : WF ms.mem) (hr : InRange ms) (orc orc' : Nat → Nat)
+    (addrs : List Addr) (hb : addrs.length ≠ 1) :
+    addPrims ms orc addrs = addPrims ms orc' addrs ∧
+    ∀ p, p ∈ addLoopPrims orc (addrs.zip (existsFlagsM ms addrs))
+        (runM ms (growPrims (addrs.zip (existsFlagsM ms addrs)) (List.range ms.maxBins) ms)) → IsWrite p := by
+  have hg := grow_spec (addrs.zip (existsFlagsM ms addrs)) (List.range ms.maxBins) ms hw
+    (fun i hi => List.mem_range.1 hi)
+  obtain ⟨A, _⟩ := grow_room (addrs.zip (existsFlagsM ms addrs)) (List.range ms.maxBins) ms hw
+  have hroom : Room (addrs.zip (existsFlagsM ms addrs))
+      (runM ms (growPrims (addrs.zip (existsFlagsM ms addrs)) (List.range ms.maxBins) ms)) := by
+    intro i hi
+    have hi' : i < ms.mem.bins.length := by rw [runM_mem, bins_length_run] at hi; exact hi
+    rw [binChange_congr ms _ (runM_base _ _) (runM_maxBins _ _)]
+    exact A i (List.mem_range.2 (by rw [← hr.1]; exact hi')) hi'
+  obtain ⟨h1, h2⟩ := addLoop_room orc orc' _ _ hg.1 (inRange_runM ms _ hr) hroom
+  refine ⟨?_, h1⟩
+  cases addrs with
+  | nil => simp only [addPrims]; rw [h2]
+  | cons a t =>
+    cases t with
+    | nil => simp at hb
+    | cons b t' => simp only [addPrims]; rw [h2]
+
 end Aurora.PSliceMem
